@@ -83,7 +83,9 @@ def gen_string(rng, dialect, width):
         return Leaf(form.format(w=w(), c=c, w2=w()), "str:reserved-char")
     if r < 0.60:
         form = rng.choice(("/* {w} */", "{w}/*{w2}", "{w}*/", "# {w}", "{w} #x",
-                           "a/b", "a*b", "/{w}", "{w}/", "*{w}", "{w}*"))
+                           "a/b", "a*b", "/{w}", "{w}/", "*{w}", "{w}*",
+                           "{w}*/{w2}", "*/{w}", "{w}*/END", "{w}#{w2}", "#{w}",
+                           "{w}/*", "/*{w}", "*/", "/*", "#", "{w}*//*{w2}"))
         return Leaf(form.format(w=w(), w2=w()), "str:comment-delimiters")
     if r < 0.64:
         form = rng.choice(("{w}-", "-{w}", "{w}-{w2}", "-", "--", "{w} -"))
@@ -262,6 +264,12 @@ def gen_units(rng, dialect):
         if not in_charset(dialect, u):
             u = "m"
         return u, ("units:plain" if " " not in u else "units:inner-space"), True
+    if r < 0.875:
+        # characters at the ends that Python's str.strip() removes but that are
+        # no white space to the dialect (they are part of the units text)
+        u = rng.choice(("m\xa0", "\xa0m", "m\xa0/\xa0s") if dialect in ("PVL", "ISIS")
+                       else ("m\x1f", "\x1cm", "km\x1e/s\x1d"))
+        return u, "units:python-space-at-the-ends", True
     if r < 0.90:
         return rng.choice((" m", "m ", " km/s ")), "units:outer-space", False
     if r < 0.95:
